@@ -18,7 +18,7 @@ RULE = (
     "bars and (>= 2 markets or interval != 1 min or >= 1 record)."
 )
 ASSUMPTIONS = [
-    "additional market-status refreshes between on-bar and update are allowed (the statement does not mention them) but must carry the bar's timestamp and concern only markets written in this bar",
+    "additional market-status refreshes between on-bar and update must carry the bar's timestamp and concern only markets written in this bar; every market whose has_update flag is set at the end of on-bar must get one (the mechanism the property anchors: a position added in a bar takes part in that bar's update)",
     "'accepted operation produces its record' is asserted for operation kinds that have a record type and a non-degenerate amount (flag changes, zero-amount buys, empty remove_all have none)",
     "action records are compared by identity / class, not by action_type name (several ActionTypeEnum members are aliases)",
 ]
@@ -68,6 +68,11 @@ class Trace(multi.Obs):
 
     def op_done(self, u, phase, op, out):
         self.ev.append(("op", op, out[0]))
+
+    def phase_end(self, u, phase, snap):
+        if phase == "on":
+            # markets flagged as written (the documented has_update mechanism) when the strategy's turn ends
+            self.ev.append(("dirty", [k for k, m in u.m.items() if m.has_update]))
 
     def on_notify(self, u, action):
         self.ev.append(("notify", action))
@@ -141,6 +146,10 @@ def body(case, ctx: Ctx):
                     written.add("squni")
                 if e[1][2] == "broker":
                     written.update(keys)
+        dirty = [e[1] for e in seg if e[0] == "dirty"]
+        refreshed = {e[1] for _, e in extra}
+        for k_ in (dirty[0] if dirty else []):
+            ctx.check(k_ in refreshed, "status.extra.missing", lambda: f"{where}: {k_} was written before the market update (has_update set) but its status was not refreshed again before update(); refreshed: {sorted(refreshed)}", case)
         for i, e in extra:
             labels.add("second_refresh")
             ctx.check(pos["on"] < i < first_upd, "status.extra.position", lambda: f"{where}: market status of {e[1]} refreshed outside on_bar..update", case)
